@@ -121,7 +121,7 @@ void run_symsh(const Desc& d)
         T sigvar = sigma;
         r.make = [&]() { sigvar = sigma; Solver* s = new Solver(op, nev, ncv, sigvar); sigvar = sigma + T(977); return s; };
         r.op_probe = [&]() { return probe_digest(op, n); };
-        r.op_reshift = [&]() { in.set_shift((T) d.f("resig", 0.21L)); in.set_shift(sigma); };
+        r.op_reshift = [&]() { try { in.set_shift((T) d.f("resig", 0.21L)); } catch (const std::exception&) {} in.set_shift(sigma); };
         r.run(&sp);
     }
     else
@@ -140,7 +140,7 @@ void run_symsh(const Desc& d)
         T sigvar = sigma;
         r.make = [&]() { sigvar = sigma; Solver* s = new Solver(op, nev, ncv, sigvar); sigvar = sigma + T(977); return s; };
         r.op_probe = [&]() { return probe_digest(op, n); };
-        r.op_reshift = [&]() { in.set_shift((T) d.f("resig", 0.21L)); in.set_shift(sigma); };
+        r.op_reshift = [&]() { try { in.set_shift((T) d.f("resig", 0.21L)); } catch (const std::exception&) {} in.set_shift(sigma); };
         r.run(&sp);
     }
 }
